@@ -1,4 +1,8 @@
-//! Seam-completeness guard: every effect site (threads, channels, file system, environment, clocks,
+//! Seam-completeness guard (scans the generated source tree sim/gen, i.e. /repo's sources after
+//! tools/seam_inject.py): a module that carries the module-level alias `use verif_rt::{shim as std, ..}`
+//! has its threads, locks, channels and file system behind the seams by construction; only effect
+//! kinds the simulator does not model (processes, sockets, foreign thread pools, randomness) are
+//! reported there. In a module without the alias every effect site (threads, channels, file system, environment, clocks,
 //! randomness, processes) in the non-test sources of /repo must be one the simulator owns or one
 //! known to be harmless. A new site is reported (non-fatally) because the simulator could no longer
 //! claim to control it; the state-based oracles (output snapshots) still see its effects.
@@ -9,6 +13,9 @@ const PATTERNS: &[&str] = &[
     "std::thread", "thread::", "crossbeam", "std::fs", "fs::", "File::", "OpenOptions", "std::env", "env::", "Instant", "SystemTime",
     "rand::", "std::process", "process::", "Command::", "std::net", "rayon", "tokio::", "mpsc", "Mutex", "RwLock", "Condvar", "Atomic",
 ];
+
+/// effect kinds the seams do not model: reported even in modules that carry the alias
+const UNMODELLED: &[&str] = &["std::process", "process::", "Command::", "std::net", "rayon", "tokio::", "rand::"];
 
 /// (file suffix, enclosing fn or "" for module level)
 const ALLOWED: &[(&str, &str)] = &[
@@ -51,6 +58,8 @@ fn strip(line: &str) -> String {
 
 fn scan_file(root: &Path, rel: &str, out: &mut Vec<String>) {
     let Ok(text) = std::fs::read_to_string(root.join(rel)) else { return };
+    let covered = text.lines().any(|l| (l.starts_with("use verif_rt::") || l.starts_with("#[cfg(typeshare_verif)] #[allow(unused_imports)] use verif_rt::")) && l.contains("shim as std"));
+    let patterns: &[&str] = if covered { UNMODELLED } else { PATTERNS };
     let mut cur_fn = String::new();
     let mut depth_at_fn = 0i32;
     let mut depth = 0i32;
@@ -81,7 +90,7 @@ fn scan_file(root: &Path, rel: &str, out: &mut Vec<String>) {
             }
         }
         if !in_test_mod && !t.starts_with("use ") && !t.starts_with("pub use ") {
-            for p in PATTERNS {
+            for p in patterns {
                 if t.contains(p) {
                     // verification hooks themselves are fine
                     if t.contains("verif_rt") || t.contains("cfg(typeshare_verif)") {
@@ -127,8 +136,7 @@ fn walk(root: &Path, rel: &str, files: &mut Vec<String>) {
 }
 
 /// Returns the list of unexpected effect sites (empty = the simulator owns everything it should).
-pub fn scan_repo() -> Vec<String> {
-    let root = Path::new("/repo");
+pub fn scan_repo(root: &Path) -> Vec<String> {
     let mut files = vec![];
     walk(root, "cli/src", &mut files);
     walk(root, "core/src", &mut files);
